@@ -69,6 +69,7 @@ struct Scenario {
 	int end = 0;       // 0 close all then SIGTERM, 1 SIGTERM with connections open
 	int order_seed = 0; // event-batch ordering policy (0 = FIFO)
 	bool local_flag = false; // start daemon with -l
+	int dribble = 0;         // != 0: in single-operation steps every delivery is split in two arrivals (second after the daemon went idle)
 };
 
 inline bool printable(const std::string &s)
@@ -145,6 +146,7 @@ inline js::Value to_json(const Scenario &sc)
 	o.set("end", js::Value::num(sc.end));
 	o.set("order_seed", js::Value::num(sc.order_seed));
 	if (sc.local_flag) o.set("local_flag", js::Value::boolean(true));
+	if (sc.dribble) o.set("dribble", js::Value::num(sc.dribble));
 	js::Value ops = js::Value::arr();
 	for (auto &op : sc.ops) ops.push(to_json(op));
 	o.set("ops", ops);
@@ -168,6 +170,7 @@ inline bool from_json(const js::Value &o, Scenario &sc)
 	sc.end = geti(o, "end");
 	sc.order_seed = geti(o, "order_seed");
 	if (auto *v = o.get("local_flag")) sc.local_flag = v->b;
+	sc.dribble = geti(o, "dribble");
 	auto *ops = o.get("ops");
 	if (!ops) return false;
 	for (auto &x : ops->a) {
